@@ -234,6 +234,43 @@ theorem C15_interval (names : List Text) (N : Int) (b : Bool) (x y : Num)
     split <;> rfl
   · simp [displayResult, stringify, h1, h2, bind, Except.bind]
 
+/-- **C15 (intervals, re-entry text).**  The text offered for re-entry for an interval is one of two renderings: the bounds as
+    displayed — and then what the tokeniser reads back from the two texts (`readsBack`: the nearest float of a text with a decimal
+    point, the exact decimal otherwise) is in order, lower ≤ upper — or every float bound with all its 17 digits (fixes
+    d33389f, 419b022: `[0.09999999, 1/10]` is NOT offered as `[0.1, 1/10]`, which reads back as the empty interval). -/
+theorem C15_interval_reentry_ordered (names : List Text) (N : Int) (a b : Num) (t : Text)
+    (h : stringify names N true (.intv a b) = .ok t) :
+    (readsBack N a ≤ readsBack N b ∧ ∃ tx ty, stringifyNum N false a = .ok tx ∧ stringifyNum N false b = .ok ty ∧
+        t = '[' :: tx ++ ',' :: ' ' :: ty ++ [']']) ∨
+    (∃ tx ty, stringifyNumFull N a = .ok tx ∧ stringifyNumFull N b = .ok ty ∧ t = '[' :: tx ++ ',' :: ' ' :: ty ++ [']']) := by
+  unfold stringify at h
+  simp only [bind, Except.bind] at h
+  cases hx : stringifyNum N false a with
+  | error e => simp [hx] at h
+  | ok tx =>
+    cases hy : stringifyNum N false b with
+    | error e => simp [hx, hy] at h
+    | ok ty =>
+      simp only [hx, hy] at h
+      by_cases hc : readsBack N a > readsBack N b
+      · right
+        simp only [Bool.true_and, decide_eq_true hc, if_true] at h
+        cases hx' : stringifyNumFull N a with
+        | error e => simp [hx'] at h
+        | ok ux =>
+          cases hy' : stringifyNumFull N b with
+          | error e => simp [hx', hy'] at h
+          | ok uy =>
+            simp only [hx', hy', Except.ok.injEq] at h
+            exact ⟨ux, uy, rfl, rfl, h.symm⟩
+      · left
+        have hd : decide (readsBack N a > readsBack N b) = false := decide_eq_false hc
+        simp only [Bool.true_and, hd, Bool.false_eq_true, if_false, Except.ok.injEq] at h
+        exact ⟨Rat.not_lt.mp hc, tx, ty, rfl, rfl, h.symm⟩
+
+/-- the two branches are both taken: `[1/3, 1/2]` keeps the displayed bounds; for `[1/10, 1/10]` … exact bounds never cross -/
+example : readsBack 6 (.frac (1/3)) ≤ readsBack 6 (.frac (1/2)) := by decide +kernel
+
 /-! ### non-vacuity -/
 
 /-- `-7/3` is shown as `-2 1/3` -/
